@@ -175,7 +175,7 @@ def body(max_steps, c):
     try:
         for step in range(n_steps):
             kind = c.choice(["ok_call", "failing_call", "failing_call", "closure_fault", "closure_reuse", "reentrant", "canary", "closure_fault_ckpt",
-                             "mutate_result", "lazy_operator", "recorded_graph"])
+                             "mutate_result", "lazy_operator", "recorded_graph", "cotangent_reuse"])
             x0 = c.choice([0.7, 1.1, 1.6])
             if kind == "canary":
                 history.append(["canary"])
@@ -265,6 +265,34 @@ def body(max_steps, c):
                             return fail("history_dependence", f"step {step}: call {i} of one make_{which} operator object, evaluated after later calls of the same "
                                         f"object, gives ({float(val)!r}, {float(tan)!r}); its own arguments give ({want_v!r}, {want_d!r})",
                                         bucket("lazy_operator"), sample=sample)
+                saw_deep_caught = True
+                continue
+            if kind == "cotangent_reuse":
+                # the caller keeps ONE cotangent array and hands it to several VJP functions (and to the same one again): functions whose last
+                # operation passes the cotangent through unchanged, over a value that is consumed twice by the operation below
+                history.append(["cotangent_reuse", x0])
+                xs = onp.array([x0, 0.5, -0.3])
+                top = c.choice(["plus_const", "real", "reshape", "minus_const", "none"])
+                low = c.choice(["x_plus_x", "x_minus_x2", "x_plus_sin", "x_times_x"])
+
+                def fr(t):
+                    u = {"x_plus_x": lambda: t + t, "x_minus_x2": lambda: t - 2.0 * t, "x_plus_sin": lambda: t + anp.sin(t), "x_times_x": lambda: t * t}[low]()
+                    return {"plus_const": lambda: u + 1.5, "real": lambda: anp.real(u), "reshape": lambda: anp.reshape(u, (3,)),
+                            "minus_const": lambda: u - 0.25, "none": lambda: u}[top]()
+
+                jac = {"x_plus_x": 2.0 * onp.ones(3), "x_minus_x2": -1.0 * onp.ones(3), "x_plus_sin": 1.0 + onp.cos(xs), "x_times_x": 2.0 * xs}[low]
+                g = onp.array([1.0, -2.0, 0.5])
+                g_before = g.copy()
+                vjp1 = autograd.make_vjp(fr)(xs)[0]
+                vjp2 = autograd.make_vjp(lambda t: fr(t) * 1.0 + 0.0)(xs)[0]
+                outs = [vjp1(g), vjp1(g), vjp2(g), vjp1(g)]
+                if not onp.array_equal(g, g_before):
+                    return fail("history_dependence", f"step {step}: the caller's cotangent array was changed by a VJP call ({top} over {low}): {g.tolist()} was {g_before.tolist()}",
+                                bucket("cotangent_changed"), sample=sample)
+                for k_, o_ in enumerate(outs):
+                    if not onp.allclose(onp.asarray(o_), g_before * jac, rtol=1e-13, atol=1e-13):
+                        return fail("history_dependence", f"step {step}: call {k_} with the same cotangent ({top} over {low}) gives {onp.asarray(o_).tolist()}, expected {(g_before * jac).tolist()}",
+                                    bucket("cotangent_reuse"), sample=sample)
                 saw_deep_caught = True
                 continue
             if kind == "recorded_graph":
